@@ -105,10 +105,10 @@ def ccExpr (c : Nat) : Res Expr :=
 def temp (addr sub bits : Nat) : Scalar :=
   scalar ("temp_0x" ++ String.ofList ((Nat.toDigits 16 addr).map Char.toUpper) ++ "_" ++ toString sub) bits
 
-/-- the operations of one register-register instruction, in emission order -/
-def opsRR (mode : Mode) (m : String) (addr : Nat) (d s : GReg) : Res (List Op) := do
+/-- the operations of one two-operand instruction with a register destination, in emission order;
+    `rhs` is the source operand's expression (`operand_load`) -/
+def opsDS (mode : Mode) (m : String) (addr : Nat) (d : GReg) (rhs : Expr) : Res (List Op) := do
   let lhs ← regGet mode d
-  let rhs ← regGet mode s
   let t := temp addr 0 lhs.bits
   let te : Expr := .scalar t
   let c0 : Op := .assign (scalar "CF" 1) (Expr.ec 0 1)
@@ -131,10 +131,45 @@ def opsRR (mode : Mode) (m : String) (addr : Nat) (d s : GReg) : Res (List Op) :
             .assign (scalar "OF" 1) (← ofExpr e lhs rhs true), .assign (scalar "CF" 1) (← cfSubExpr e lhs)]
   | "and" | "or" | "xor" => do
       let op := if m = "and" then BinOp.and else if m = "or" then BinOp.or else BinOp.xor
-      -- xor of a register with itself is emitted as an assignment of zero
+      -- xor of an operand with itself is emitted as an assignment of zero
       let r ← if m = "xor" ∧ lhs = rhs then pure (Expr.ec 0 lhs.bits) else Expr.mkBin op lhs rhs
       pure [.assign t r, .assign (scalar "ZF" 1) (← zfExpr te), .assign (scalar "SF" 1) (← sfExpr te), c0, o0,
             ← regSet mode d te]
+  | _ => .err .other
+
+/-- register, register -/
+def opsRR (mode : Mode) (m : String) (addr : Nat) (d s : GReg) : Res (List Op) := do
+  let rhs ← regGet mode s
+  opsDS mode m addr d rhs
+
+/-- register, immediate of the destination's width (what capstone reports: the immediate already sign-extended):
+    `operand_value` gives `expr_const(imm as u64, size * 8)` -/
+def opsRI (mode : Mode) (m : String) (addr : Nat) (d : GReg) (v bytes : Nat) : Res (List Op) :=
+  if 8 * bytes = d.bits then opsDS mode m addr d (Expr.ec v (8 * bytes)) else .err .other
+
+/-- inc / dec / neg / not on a register -/
+def opsUn (mode : Mode) (m : String) (addr : Nat) (d : GReg) : Res (List Op) := do
+  let dst ← regGet mode d
+  let w := dst.bits
+  match m with
+  | "inc" => do
+      let e ← Expr.mkBin .add dst (Expr.ec 1 w)
+      pure [.assign (scalar "ZF" 1) (← zfExpr e), .assign (scalar "SF" 1) (← sfExpr e),
+            .assign (scalar "OF" 1) (← ofExpr e dst (Expr.ec 1 w) false), ← regSet mode d e]
+  | "dec" => do
+      let e ← Expr.mkBin .sub dst (Expr.ec 1 w)
+      pure [.assign (scalar "ZF" 1) (← zfExpr e), .assign (scalar "SF" 1) (← sfExpr e),
+            .assign (scalar "OF" 1) (← ofExpr e dst (Expr.ec 1 w) true), ← regSet mode d e]
+  | "neg" => do
+      let t := temp addr 0 w
+      let te : Expr := .scalar t
+      let c ← Expr.mkBin .cmpneq dst (Expr.ec 0 w)
+      let r ← Expr.mkBin .sub (Expr.ec 0 w) dst
+      pure [.assign (scalar "CF" 1) c, .assign t r, .assign (scalar "ZF" 1) (← zfExpr te), .assign (scalar "SF" 1) (← sfExpr te),
+            .assign (scalar "OF" 1) (← ofExpr te (Expr.ec 0 w) dst true), ← regSet mode d te]
+  | "not" => do
+      let e ← Expr.mkBin .xor dst (Expr.ec 0xffffffffffffffff w)
+      pure [← regSet mode d e]
   | _ => .err .other
 
 def mkInstrs (addr : Nat) : Nat → List Op → List Instr
@@ -155,11 +190,27 @@ def liftRR (mode : Mode) (m : String) (addr len : Nat) (d s : GReg) : Res BTR :=
   let ops ← opsRR mode m addr d s
   pure (straight addr len ops)
 
-/-- the class option (A) covers: these mnemonics with two general-register operands of equal width -/
-def inClassRR (i : Ins) : Option (GReg × GReg) :=
-  match i.ops with
+def liftRI (mode : Mode) (m : String) (addr len : Nat) (d : GReg) (v bytes : Nat) : Res BTR := do
+  let ops ← opsRI mode m addr d v bytes
+  pure (straight addr len ops)
+
+def liftUn (mode : Mode) (m : String) (addr len : Nat) (d : GReg) : Res BTR := do
+  let ops ← opsUn mode m addr d
+  pure (straight addr len ops)
+
+def aluMnemonics : List String := ["mov", "add", "sub", "cmp", "and", "or", "xor"]
+def unMnemonics : List String := ["inc", "dec", "neg", "not"]
+
+/-- the mirror's output for an instruction of the mirrored classes (`none`: outside) -/
+def liftIns (i : Ins) : Option (Res BTR) :=
+  if i.lock then none
+  else match i.ops with
   | [.reg d, .reg s] =>
-    if ["mov", "add", "sub", "cmp", "and", "or", "xor"].contains i.mnem ∧ d.bits = s.bits ∧ !i.lock then some (d, s) else none
+    if aluMnemonics.contains i.mnem ∧ d.bits = s.bits then some (liftRR i.mode i.mnem i.addr i.len d s) else none
+  | [.reg d, .imm v bytes] =>
+    if aluMnemonics.contains i.mnem ∧ 8 * bytes = d.bits then some (liftRI i.mode i.mnem i.addr i.len d v bytes) else none
+  | [.reg d] =>
+    if unMnemonics.contains i.mnem then some (liftUn i.mode i.mnem i.addr i.len d) else none
   | _ => none
 
 end X86Lift
